@@ -149,6 +149,22 @@ def apply_history(dm, hist, trace=None):
                 ops.group(dm, by=[col])
             else:
                 raise HarnessInputError(st)
+        elif t == 'use':
+            # another operation on the same table whose result is discarded (copies and permutes row-id objects whose
+            # position caches an earlier split / selection filled)
+            import random as _random
+            _random.seed(st.get('seed', 0))
+            how = st['how']
+            if how == 'shuffle_dm':
+                ops.shuffle(dm)
+            elif how == 'shuffle_col':
+                ops.shuffle(dm[st['col']])
+            elif how == 'sample':
+                ops.random_sample(dm, min(2, len(dm)))
+            elif how == 'sort':
+                ops.sort(dm, by=dm[st['col']])
+            else:
+                raise HarnessInputError(st)
         elif t == 'length':
             dm.length = max(0, len(dm) + st['delta'])
             if 'uid' in dm and len(dm):
@@ -751,8 +767,19 @@ class C14:
             delta = rng.choice([1, 2, 3])
             return {'t': 'length', 'delta': delta, 'uids': rng.sample(range(100, 200), n + delta + 8)}
 
+        def use():
+            col = rng.choice(keys) if keys else 'uid'
+            return {'t': 'use', 'how': rng.choice(['shuffle_dm', 'shuffle_dm', 'shuffle_col', 'sample', 'sort']),
+                    'col': col, 'seed': rng.randrange(1000)}
+
         hist = [probe()]
-        if rng.random() < 0.45 or not targets:
+        if rng.random() < 0.3:
+            # split / select, then shuffle or sample the same table (results discarded), then the judged operation
+            hist.extend(use() for _ in range(rng.randint(1, 2)))
+            if rng.random() < 0.3:
+                hist.append(probe())
+                hist.append(use())
+        elif rng.random() < 0.45 or not targets:
             st = grow()
             n += st['delta']
             hist.append(st)
